@@ -2,8 +2,10 @@
   C13 — the parser accepts exactly GraphQL documents and builds the tree they denote.
   Property theorems only (helper lemmas live in AGV/Lemmas/ParseC13.lean).
 
-  The whole-language statement is OPEN and tied by three-way differential testing (real parser,
-  PEG model + tree builder, independent specification parser); closed here are component results.
+  The whole-language statement `c13_full` (model parser = specification parser on every text) is
+  proved; the three-way differential testing (real parser, PEG model + tree builder, independent
+  specification parser) ties the model to the code.  The rule-by-rule results it is assembled from
+  are obligations of their own.
 
   OBLIGATION c13_type
   OBLIGATION c13_type_parse_type
@@ -39,7 +41,14 @@
   OBLIGATION c13_value_partial
   OBLIGATION c13_arguments_partial
   OBLIGATION c13_value_complete
-  OPEN c13_full
+  OBLIGATION c13_directives_partial
+  OBLIGATION c13_directives_spec
+  OBLIGATION c13_type_partial
+  OBLIGATION c13_variable_definitions_partial
+  OBLIGATION c13_selection_set_partial
+  OBLIGATION c13_definition_partial
+  OBLIGATION c13_document_partial
+  OBLIGATION c13_full
 -/
 import AGV.Lemmas.ParseC13
 import AGV.Lemmas.ParseC13Unique
@@ -49,6 +58,7 @@ import AGV.Lemmas.ParseC13Number
 import AGV.Lemmas.ParseC13PairsWf
 import AGV.Lemmas.PegC13TokSpec
 import AGV.Lemmas.PegC13SpecFin
+import AGV.Lemmas.PegC13Full
 
 namespace AGV.Props.C13
 open AGV.Model.BuildAst AGV.Core.PAst AGV.Lemmas.ParseC13
@@ -142,17 +152,7 @@ theorem c13_full_violated_by_emptyStringBeforeQuote :
      | .ok _ => true | .error _ => false) = false := by
   refine ⟨?_, ?_, ?_⟩ <;> decide
 
--- ------------------------------------------------------------------ open statements
-
-/-- OPEN.  The whole property: for every source text, the model with no defect (patched grammar +
-    tree builder) and the specification parser agree on acceptance and on the tree (as printed
-    canonically).  Tied by the three-way differential correspondence only. -/
-def c13_full : Prop :=
-  ∀ s : List Char,
-    (match parseQuery Defects.none s with
-     | .ok d => some (sResult (.ok d))
-     | .error _ => none) =
-    (AGV.Spec.Parse.parseDocument {} s).map (fun d => sResult (.ok d))
+-- ------------------------------------------------------------------ components
 
 /-- `block_string_value` without its two defects is `BlockStringValue()` on every raw text that
     is the content of a block string (the specification's lexer reads `raw"""` as one block string
@@ -560,6 +560,246 @@ theorem c13_value_complete (const : Bool) (s₀ : List Char) (q : Nat) (t : List
   exact ⟨s', pr, a1, a2, a3, a4, a5 h2⟩
 
 end Tokens
+
+-- ------------------------------------------------------------------ rule by rule (towards c13_full)
+
+section Rules
+open AGV.Lemmas.PegX AGV.Model.Peg AGV.Spec.Lex AGV.Spec.Parse
+
+/-- what a reading lemma of `Lemmas/PegC13Comb.lean` says, spelled out for one text and one fuel -/
+theorem reads_explicit {α : Type} {L : Nat} {e : Expr} {B : Nat} {qf : Sim α} {Bd : Bld α} (h : Reads L e B qf Bd)
+    (s₀ : List Char) (q : Nat) (t : List Char) (hL : t.length < L) (hat : ∃ pre, s₀ = pre ++ t ∧ pre.length = q)
+    (ht : TokStart t) (f : Nat) (hf : 24 * t.length + B ≤ f) :
+    match qf (toks t) with
+    | some (a, ts') =>
+      ∃ s' ps, eval (grammarFor Defects.none) f {} e q t = .ok (q + (t.length - s'.length)) s' ps ∧ toks s' = ts' ∧
+        Bd s₀ ps a
+    | none => eval (grammarFor Defects.none) f {} e q t = .fail := by
+  obtain ⟨r, hE, hO⟩ := h q t hL ht
+  have ho := hO s₀ hat
+  cases hq : qf (toks t) with
+  | none => simp only []; rw [← ho.isFail hq]; exact hE f hf
+  | some x =>
+    obtain ⟨a, ts'⟩ := x
+    obtain ⟨s', ps, e1, h1, -, h3⟩ := ho.isOk hq
+    simp only []
+    exact ⟨s', ps, by rw [← e1]; exact hE f hf, h1, h3⟩
+
+/-- The `directives` / `const_directives` rules (`directive+`, each `"@" ~ name ~ arguments?`) on EVERY
+    text that begins a token: the interpreter does what the token-level PEG reader `qDirectives` does
+    on the specification's tokens (a `(` that opens no argument list is left for what follows), and
+    `parse_directive` over the emitted pair returns the directives read, in stored form — or the
+    number error when an argument contains an infinite float literal.  Fuel `24·length + 52`. -/
+theorem c13_directives_partial (const : Bool) (s₀ : List Char) (q : Nat) (t : List Char)
+    (hat : ∃ pre, s₀ = pre ++ t ∧ pre.length = q) (ht : TokStart t) (f : Nat) (hf : 24 * t.length + 52 ≤ f) :
+    match qDirectives const (toks t) with
+    | some (ds, ts') =>
+      ∃ s' pr, eval (grammarFor Defects.none) f {} (.ident (if const then "const_directives" else "directives")) q t =
+          .ok (q + (t.length - s'.length)) s' [pr] ∧
+        toks s' = ts' ∧ pr.rule = (if const then "const_directives" else "directives") ∧
+        pr.inner.mapM (buildDirective ⟨Defects.none, s₀.toArray⟩) =
+          (if finDs ds then .ok (normDs ds) else .error .number)
+    | none =>
+      eval (grammarFor Defects.none) f {} (.ident (if const then "const_directives" else "directives")) q t = .fail := by
+  have key : ∀ F : ValFam, IsFam F →
+      match qDirectives F.const (toks t) with
+      | some (ds, ts') =>
+        ∃ s' pr, eval (grammarFor Defects.none) f {} (.ident (dsName F)) q t = .ok (q + (t.length - s'.length)) s' [pr] ∧
+          toks s' = ts' ∧ pr.rule = dsName F ∧
+          pr.inner.mapM (buildDirective ⟨Defects.none, s₀.toArray⟩) = (if finDs ds then .ok (normDs ds) else .error .number)
+      | none => eval (grammarFor Defects.none) f {} (.ident (dsName F)) q t = .fail := by
+    intro F hF
+    have h := reads_explicit (reads_directives F hF (t.length + 1)) s₀ q t (Nat.lt_succ_self _) hat ht f hf
+    cases hq : qDirectives F.const (toks t) with
+    | none => rw [hq] at h; exact h
+    | some x =>
+      obtain ⟨ds, ts'⟩ := x
+      rw [hq] at h
+      obtain ⟨s', ps, e1, e2, pr, rfl, e3, e4⟩ := h
+      exact ⟨s', pr, e1, e2, e3, e4⟩
+  cases const with
+  | false => exact key famV (Or.inl rfl)
+  | true => exact key famC (Or.inr rfl)
+
+example : TokStart "@skip(if: $v) @x(a: [1 2.5]) {b}".toList := tokStart_cons (by decide) (by decide)
+
+/-- `Directives[Const]?` of the specification against `directives?` as the PEG reads it
+    (`qOptDirs`: zero or more `qDirective`s): the two outcomes are equal, or both are failures-to-be —
+    `none`, or a success whose rest begins with `(` or `@`, on which every continuation in the
+    grammar and in the specification fails. -/
+theorem c13_directives_spec (const : Bool) (ts : List Tok) :
+    Agree (HeadIn ['(', '@']) (qOptDirs const ts) (pDirs { finiteFloats := false } const ts) :=
+  optDirs_agree const ts
+
+/-- The repaired (non-atomic) `type_` rule on EVERY text that begins a token, for the toggle-free
+    model (the pinned atomic rule rejects inner whitespace: finding C13-type-inner-ws): the
+    interpreter accepts exactly when the specification's `pType` reads a Type from the tokens, leaves
+    the text with the remaining tokens, and `parse_type` computes that type from the emitted pair. -/
+theorem c13_type_partial (s₀ : List Char) (q : Nat) (t : List Char)
+    (hat : ∃ pre, s₀ = pre ++ t ∧ pre.length = q) (ht : TokStart t) (f : Nat) (hf : 24 * t.length + 40 ≤ f) :
+    match pType ((toks t).length + 1) (toks t) with
+    | some (ty, ts') =>
+      ∃ s' pr, eval (grammarFor Defects.none) f {} (.ident "type_") q t = .ok (q + (t.length - s'.length)) s' [pr] ∧
+        toks s' = ts' ∧ buildType ⟨Defects.none, s₀.toArray⟩ pr = .ok ty
+    | none => eval (grammarFor Defects.none) f {} (.ident "type_") q t = .fail := by
+  have hlen := toks_length_le t.length t (Nat.le_refl _)
+  have h := reads_explicit (reads_type (t.length + 1)) s₀ q t (Nat.lt_succ_self _) hat ht f hf
+  rw [type_agree (toks t).length (toks t) (Nat.le_refl _) (t.length + 1) ((toks t).length + 1) (by omega)
+    (Nat.lt_succ_self _)] at h
+  cases hq : pType ((toks t).length + 1) (toks t) with
+  | none => rw [hq] at h; exact h
+  | some x =>
+    obtain ⟨ty, ts'⟩ := x
+    rw [hq] at h
+    obtain ⟨s', ps, e1, e2, pr, rfl, -, e4⟩ := h
+    refine ⟨s', pr, e1, e2, ?_⟩
+    have hd : AGV.Lemmas.ParseC13.typeDepth ty + ts'.length < (toks t).length := by
+      rw [← type_agree (toks t).length (toks t) (Nat.le_refl _) (t.length + 1) ((toks t).length + 1) (by omega)
+        (Nat.lt_succ_self _)] at hq
+      exact qType_depth _ _ _ _ hq
+    obtain ⟨pre, rfl, rfl⟩ := hat
+    have := e4 (fuelOf (envOf (pre ++ t))) (by simp [fuelOf, envOf]; omega)
+    simpa [buildType, envOf, Defects.none] using this
+
+example : TokStart "[ [Int !] ] ! = 1".toList := tokStart_cons (by decide) (by decide)
+
+/-- The `variable_definitions` rule (`"(" ~ variable_definition+ ~ ")"`, each
+    `variable ":" type_ default_value? const_directives?` — the repaired order) on EVERY text that
+    begins a token: the interpreter accepts exactly when the text starts with `(` and the
+    specification's `pVarDefs` reads `VariableDefinition+ )` after it, leaves the same tokens, and
+    `parse_variable_definition` over the emitted pair returns the definitions in stored form (or the
+    number error for an infinite float literal). -/
+theorem c13_variable_definitions_partial (s₀ : List Char) (q : Nat) (t : List Char)
+    (hat : ∃ pre, s₀ = pre ++ t ∧ pre.length = q) (ht : TokStart t) (f : Nat) (hf : 24 * t.length + 80 ≤ f) :
+    match pOptVars (toks t), closeTok '(' (toks t) with
+    | some (vds, ts'), some _ =>
+      ∃ s' pr, eval (grammarFor Defects.none) f {} (.ident "variable_definitions") q t =
+          .ok (q + (t.length - s'.length)) s' [pr] ∧
+        toks s' = ts' ∧ pr.rule = "variable_definitions" ∧
+        pr.inner.mapM (buildVarDef ⟨Defects.none, s₀.toArray⟩) =
+          (if vds.all finVD then .ok (vds.map normVD) else .error .number)
+    | _, _ => eval (grammarFor Defects.none) f {} (.ident "variable_definitions") q t = .fail := by
+  have hlen := toks_length_le t.length t (Nat.le_refl _)
+  have h := reads_explicit (reads_vardefs (t.length + 1)) s₀ q t (Nat.lt_succ_self _) hat ht f hf
+  cases hc : closeTok '(' (toks t) with
+  | none =>
+    have e1 : qVarDefs (t.length + 1) (toks t) = none := by
+      unfold qVarDefs
+      rw [tMap_eq, tSeq_of_none (by rw [tPunct_eq, hc]; rfl)]; rfl
+    rw [e1] at h
+    cases pOptVars (toks t) <;> exact h
+  | some r =>
+    have e := closeTok_some hc
+    rw [e] at h hlen ⊢
+    simp only [List.length_cons] at hlen
+    rw [qVarDefs_at, vardefs_agree r.length r (Nat.le_refl _) (t.length + 1) (r.length + 1) (by omega)
+      (Nat.lt_succ_self _)] at h
+    have e2 : pOptVars (.punct '(' :: r) = pVarDefs { finiteFloats := false } (r.length + 1) r := rfl
+    rw [e2]
+    cases hp : pVarDefs { finiteFloats := false } (r.length + 1) r with
+    | none => rw [show pVarDefs P' (r.length + 1) r = none from hp] at h; exact h
+    | some x =>
+      obtain ⟨vds, ts'⟩ := x
+      rw [show pVarDefs P' (r.length + 1) r = some (vds, ts') from hp] at h
+      obtain ⟨s', ps, e1, e2, pr, rfl, e3, e4⟩ := h
+      exact ⟨s', pr, e1, e2, e3, e4⟩
+
+example : TokStart "($a: Int = 1 @d, $b: [T!]!) {f}".toList := tokStart_cons (by decide) (by decide)
+
+/-- The `selection_set` rule (fields with aliases, arguments, directives and nested sets; fragment
+    spreads; inline fragments — any nesting) on EVERY text that begins a token: the interpreter
+    accepts exactly when the specification's `pSelectionSet` reads a SelectionSet from the tokens,
+    leaves the text with the remaining tokens, and `parse_selection_set` over the emitted pair, at any
+    sufficient fuel and under any depth limit `lim`, returns the selections in stored form when no
+    float literal is infinite and the nesting is within `lim`, and an error otherwise. -/
+theorem c13_selection_set_partial (s₀ : List Char) (q : Nat) (t : List Char)
+    (hat : ∃ pre, s₀ = pre ++ t ∧ pre.length = q) (ht : TokStart t) (f : Nat) (hf : 24 * t.length + 100 ≤ f) :
+    match pSelectionSet { finiteFloats := false } (toks t) with
+    | some (ss, ts') =>
+      ∃ s' pr, eval (grammarFor Defects.none) f {} (.ident "selection_set") q t =
+          .ok (q + (t.length - s'.length)) s' [pr] ∧
+        toks s' = ts' ∧ pr.rule = "selection_set" ∧
+        ∀ bf lim, dSels ss < bf →
+          Exp (buildSelSet ⟨Defects.none, s₀.toArray⟩ bf lim pr) (finSels ss && decide (dSels ss ≤ lim)) (normSels ss)
+    | none => eval (grammarFor Defects.none) f {} (.ident "selection_set") q t = .fail := by
+  have hlen := toks_length_le t.length t (Nat.le_refl _)
+  have h := reads_explicit (reads_selSet (t.length + 1)) s₀ q t (Nat.lt_succ_self _) hat ht f hf
+  rw [selSet_agree (t.length + 1) (toks t) (by omega)] at h
+  cases hq : pSelectionSet { finiteFloats := false } (toks t) with
+  | none => rw [show pSelectionSet P' (toks t) = none from hq] at h; exact h
+  | some x =>
+    obtain ⟨ss, ts'⟩ := x
+    rw [show pSelectionSet P' (toks t) = some (ss, ts') from hq] at h
+    obtain ⟨s', ps, e1, e2, pr, rfl, e3, -, e4⟩ := h
+    exact ⟨s', pr, e1, e2, e3, e4⟩
+
+example : TokStart "{ a: b(x: 1) @d { c ...F ... on T { d } } }".toList := tokStart_cons (by decide) (by decide)
+
+/-- The `executable_definition` rule (operation definitions — anonymous or with operation type, name,
+    variable definitions, directives — and fragment definitions) on EVERY text that begins a token:
+    the interpreter accepts exactly when the specification's `pDefinition` reads a definition, leaves
+    the text with the remaining tokens, and `parse_definition_item` returns it in stored form when it
+    has no infinite float literal and nests at most `MAX_RECURSION_DEPTH` levels, an error otherwise. -/
+theorem c13_definition_partial (s₀ : List Char) (q : Nat) (t : List Char)
+    (hat : ∃ pre, s₀ = pre ++ t ∧ pre.length = q) (ht : TokStart t) (f : Nat) (hf : 24 * t.length + 120 ≤ f) :
+    match pDefinition { finiteFloats := false } (toks t) with
+    | some (d, ts') =>
+      ∃ s' pr, eval (grammarFor Defects.none) f {} (.ident "executable_definition") q t =
+          .ok (q + (t.length - s'.length)) s' [pr] ∧
+        toks s' = ts' ∧
+        Exp (buildDefinition ⟨Defects.none, s₀.toArray⟩ pr) (finDef d && decide (dDef d ≤ maxDepth)) (normDef d)
+    | none => eval (grammarFor Defects.none) f {} (.ident "executable_definition") q t = .fail := by
+  have hlen := toks_length_le t.length t (Nat.le_refl _)
+  have h := reads_explicit (reads_definition (t.length + 1)) s₀ q t (Nat.lt_succ_self _) hat ht f hf
+  rw [def_agree (t.length + 1) (toks t) (by omega)] at h
+  cases hq : pDefinition { finiteFloats := false } (toks t) with
+  | none => rw [show pDefinition P' (toks t) = none from hq] at h; exact h
+  | some x =>
+    obtain ⟨d, ts'⟩ := x
+    rw [show pDefinition P' (toks t) = some (d, ts') from hq] at h
+    obtain ⟨s', ps, e1, e2, pr, rfl, -, e4⟩ := h
+    exact ⟨s', pr, e1, e2, e4⟩
+
+example : TokStart "query Q($v: Int = 1) @d { a } fragment F on T { b }".toList := tokStart_cons (by decide) (by decide)
+
+/-- `parse_query` on EVERY text against the specification's `pDefinitions` on the token stream (total:
+    a lexical error is the token `bad`, which no definition consumes; the specification taken without
+    its finiteness check, which — like the depth limit — is a condition on the finished tree): a
+    syntax error exactly when `pDefinitions` fails; otherwise the uniqueness loop runs on the
+    definitions read, in stored form, when none has an infinite float literal or nests too deep, and
+    the result is an error when one does. -/
+theorem c13_document_partial (s : List Char) :
+    match pDefinitions { finiteFloats := false } ((toks s).length + 1) (toks s) with
+    | none => parseQuery Defects.none s = .error .syntax
+    | some defs =>
+      (defs.all okDef = true → parseQuery Defects.none s = collectDefs (defs.map normDef)) ∧
+      (defs.all okDef = false → ∃ e, parseQuery Defects.none s = .error e) := by
+  have hlen := toks_length_le s.length s (Nat.le_refl _)
+  have h := parseQuery_peg s
+  rw [qDocument_agree (toks s) (s.length + 1) (by omega)] at h
+  cases hp : pDefinitions { finiteFloats := false } ((toks s).length + 1) (toks s) with
+  | none => rw [show pDefinitions P' ((toks s).length + 1) (toks s) = none from hp] at h; exact h
+  | some defs => rw [show pDefinitions P' ((toks s).length + 1) (toks s) = some defs from hp] at h; exact h
+end Rules
+
+-- ------------------------------------------------------------------ the whole property
+
+/-- The whole property: for every source text, the model with no defect (the PEG interpreter over the
+    repaired grammar + the tree builder + the uniqueness loop) and the specification (lexer +
+    recursive-descent parser of the October 2021 grammar for executable documents, with its
+    documented parameters: finite floats, at most 64 nested selection sets, at least one operation)
+    agree on acceptance and on the tree, as printed canonically (an object literal as the `IndexMap`
+    it is stored in).  Assembled from `c13_document_partial` (interpreter and tree builder against
+    the token-level readers, readers against `pDefinitions`), the specification-side facts (the
+    finiteness and depth checks are conditions on the finished tree; a lexical error is never
+    consumed) and the printer's blindness to the stored form. -/
+theorem c13_full :
+    ∀ s : List Char,
+    (match parseQuery Defects.none s with
+     | .ok d => some (sResult (.ok d))
+     | .error _ => none) =
+    (AGV.Spec.Parse.parseDocument {} s).map (fun d => sResult (.ok d)) :=
+  AGV.Lemmas.PegX.full
 
 /-- The statement without the hypothesis (as it stood under OPEN) … -/
 def c13_depth_unrestricted : Prop :=
